@@ -53,6 +53,7 @@ func TestVerifC13(t *testing.T) {
 		"ws://[::1]:80/x", "ws://[fe80::1%25eth0]/x", "ws://evil.example:0/x", "ws://evil.example:65536/x", "ws://evil.example:/x", "ws://evil.example/a%2Fb/c%20d?z=%26",
 		"ws://evil.example/../../etc", "ws://evil.example", "ws://evil.example?x", "ws://evil.example#f", "WS://EVIL.EXAMPLE/X", "ws://evil.example/x y", "ws:///nohost",
 		"%zz", "ws://evil.example/%zz", "http://[::1", "\x00\x01\x02", "ws://ev il/x", "ws://evil.example/\r\nHost: x", strings.Repeat("a", 5000), "ws://" + strings.Repeat("h", 300) + "/x",
+		"ws://user:pw@front/ws?email=bob@evil.example:81/ws", "wss://user@front/users/@evil.example:81/ws", "ws://u:p%40w@front/ws", "ws://u:p@front/a@b", "ws://front/path@evil.example:81/x", "ws://front/?q=@evil.example:81",
 		"1x://evil/x", "://evil/x", "ws:/one/slash", "ws:////four", "file:///etc/passwd", "ws://@evil.example/x", "ws://:@evil.example/x", "ws://evil.example\\@backend.verif/x",
 	}
 	n := 300
